@@ -88,6 +88,101 @@ impl Backend for Threaded {
     }
 }
 
+// ------------------------------------------------------------------------------------------------
+// twin routes (spec/static/TwinRoutes.tla): several `directory` routes, ONE cache-enabled AppState
+// ------------------------------------------------------------------------------------------------
+const TWIN_MARK: &str = "HV-TWIN-FILE:";
+
+fn twin_content(id: i64) -> Vec<u8> {
+    // distinct, recognisable, of different lengths, every byte value present
+    let mut v = format!("{}{}:", TWIN_MARK, id).into_bytes();
+    v.extend((0..=255u8).cycle().take(300 + (id as usize % 7) * 111));
+    v.extend(format!(":{}{}", TWIN_MARK, id).as_bytes());
+    v
+}
+
+/// Which twin file a body is (0: none of them, -1: carries the mark of one but is not intact).
+fn twin_id(body: &[u8]) -> i64 {
+    let text = String::from_utf8_lossy(body);
+    if let Some(at) = text.find(TWIN_MARK) {
+        let digits: String = text[at + TWIN_MARK.len()..].chars().take_while(|c| c.is_ascii_digit()).collect();
+        if let Ok(id) = digits.parse::<i64>() {
+            if body == &twin_content(id)[..] { return id; }
+        }
+        return -1;
+    }
+    0
+}
+
+/// stdin: TLC's behaviours {"twin":[{"host","route","dir","uri","id","hit"},..]}; every behaviour is replayed on a fresh
+/// cache-enabled AppState shared by all routes; stdout: one summary line (mismatches with the whole behaviour).
+fn twin(scratch: &str) {
+    use serde_json::{json, Value};
+    let base = std::path::PathBuf::from(scratch).join(format!("twin-{}", std::process::id()));
+    let _ = std::fs::remove_dir_all(&base);
+    // the two directories of TwinRoutes!FileAt
+    let files: &[(&str, &str, i64)] = &[("A", "index.html", 101), ("A", "report.txt", 102), ("A", "docs/data.json", 103), ("A", "docs/index.html", 104),
+        ("B", "index.html", 201), ("B", "report.txt", 202), ("B", "docs/data.json", 203), ("B", "only-b.txt", 205)];
+    for (d, rel, id) in files {
+        let path = base.join(d).join(rel);
+        std::fs::create_dir_all(path.parent().unwrap()).unwrap();
+        std::fs::write(&path, twin_content(*id)).unwrap();
+    }
+    let dir_a = leak(base.join("A").to_str().unwrap().to_string());
+    let dir_b = leak(base.join("B").to_str().unwrap().to_string());
+    let (mut behaviours, mut requests, mut hits, mut mismatches, mut cross) = (0u64, 0u64, 0u64, 0u64, 0u64);
+    let mut first: Vec<Value> = vec![];
+    for line in hutil::stdin_lines() {
+        let v: Value = match serde_json::from_str(&line) { Ok(v) => v, Err(_) => continue };
+        let steps = match v.get("twin").and_then(|t| t.as_array()) { Some(s) => s.clone(), None => continue };
+        behaviours += 1;
+        let state = app_state(true);
+        let mut got_ids: Vec<Value> = vec![];
+        let mut bad = false;
+        let mut prior_dirs: Vec<String> = vec![];
+        for st in &steps {
+            let uri = st["uri"].as_str().unwrap_or("/");
+            let route = st["route"].as_str().unwrap_or("/*");
+            let dir = if st["dir"] == "A" { dir_a } else { dir_b };
+            let host = st["host"].as_u64().unwrap_or(0) as usize;
+            let wire = format!("GET {} HTTP/1.1\r\nHost: h{}\r\n\r\n", uri, host);
+            let mut r: &[u8] = wire.as_bytes();
+            let req = match Request::from_stream(&mut r, "127.0.0.1:4242".parse().unwrap()) { Ok(q) => q, Err(_) => { bad = true; break } };
+            let st2 = state.clone();
+            let res = std::panic::catch_unwind(std::panic::AssertUnwindSafe(move || directory_handler(req, st2, dir, route, host)));
+            requests += 1;
+            if st["hit"] == true { hits += 1; }
+            let (status, gid) = match &res {
+                Ok(resp) => { let c: u16 = resp.status_code.into(); (c, twin_id(&resp.body)) }
+                Err(_) => (0, -2),
+            };
+            got_ids.push(json!([status, gid]));
+            let want = st["id"].as_i64().unwrap_or(0);
+            // what C06 states: a 200 carries the file asked for, intact; where the directory has no such file nothing of
+            // any file is returned (the status of a refusal is left open)
+            let ok = if want != 0 { status == 200 && gid == want } else { gid == 0 && status != 0 };
+            if !ok {
+                bad = true;
+                if gid > 0 && want / 100 != gid / 100 && prior_dirs.iter().any(|d| d != st["dir"].as_str().unwrap_or("")) { cross += 1; }
+            }
+            prior_dirs.push(st["dir"].as_str().unwrap_or("").to_string());
+        }
+        if bad {
+            mismatches += 1;
+            if first.len() < 5 { first.push(json!({"behaviour": steps, "got": got_ids})); }
+        }
+    }
+    let _ = std::fs::remove_dir_all(&base);
+    hutil::out_line(&json!({"summary": true, "mode": "twin", "behaviours": behaviours, "requests": requests, "expected_hits": hits,
+        "mismatches": mismatches, "answered_from_other_directory": cross, "first": first}));
+}
+
 fn main() {
+    let a: Vec<String> = std::env::args().collect();
+    if a.get(1).map(|s| s.as_str()) == Some("twin") && a.len() >= 3 {
+        hutil::quiet_panics();
+        twin(&a[2]);
+        return;
+    }
     common::main_with::<Threaded>();
 }
